@@ -223,6 +223,49 @@ Proof.
     + intros x Hx. rewrite (Hne x Hx). reflexivity.
 Qed.
 
+(* the effect profile and instance_material: unmanaged children keep their relative order, the
+   managed ones are exactly the model's, in order *)
+Lemma filter_firstn_skipn {A} (f : A -> bool) (n : nat) (l : list A) :
+  filter f (firstn n l) ++ filter f (skipn n l) = filter f l.
+Proof. rewrite <- filter_app, firstn_skipn. reflexivity. Qed.
+
+Lemma In_firstn {A} (n : nat) (l : list A) x : In x (firstn n l) -> In x l.
+Proof. revert l. induction n as [|n IH]; intros [|y r]; simpl; try tauto. intros [H|H]; [left; exact H | right; apply IH; exact H]. Qed.
+Lemma In_skipn {A} (n : nat) (l : list A) x : In x (skipn n l) -> In x l.
+Proof. revert l. induction n as [|n IH]; intros [|y r]; simpl; try tauto. intro H. right. apply IH. exact H. Qed.
+
+Lemma block_insert_spec (managed : N -> bool) (old block : list N) (loc : nat) :
+  (forall x, In x block -> managed x = true) ->
+  let rest := filter (fun c => negb (managed c)) old in
+  sync_spec managed old block (firstn loc rest ++ block ++ skipn loc rest).
+Proof.
+  intros Hb rest.
+  assert (Hrest : forall x, In x rest -> managed x = false).
+  { intros x Hx. apply filter_In in Hx. destruct Hx as [_ Hx]. destruct (managed x); [discriminate | reflexivity]. }
+  assert (Hsub : forall l, incl l rest -> filter managed l = [] /\ filter (fun c => negb (managed c)) l = l).
+  { induction l as [|x r IH]; simpl; intro Hi; [split; reflexivity|].
+    rewrite (Hrest x (Hi x (or_introl eq_refl))). simpl.
+    destruct IH as [I1 I2]; [intros y Hy; apply Hi; right; exact Hy|]. rewrite I1, I2. split; reflexivity. }
+  assert (Hf : incl (firstn loc rest) rest) by (intros x Hx; eapply In_firstn; exact Hx).
+  assert (Hs : incl (skipn loc rest) rest) by (intros x Hx; eapply In_skipn; exact Hx).
+  destruct (Hsub _ Hf) as [F1 F2]. destruct (Hsub _ Hs) as [S1 S2].
+  split.
+  - rewrite !filter_app, F1, S1, app_nil_r. simpl. apply filter_app_all. exact Hb.
+  - rewrite !filter_app, F2, S2. rewrite (filter_app_none (fun c => negb (managed c)) block).
+    + simpl. apply firstn_skipn.
+    + intros x Hx. rewrite (Hb x Hx). reflexivity.
+Qed.
+
+Theorem profile_sync_meets_spec : forall is_param tec old params,
+  (forall x, In x params -> is_param x = true) ->
+  sync_spec is_param old params (profile_sync is_param tec old params).
+Proof. intros. unfold profile_sync. apply block_insert_spec. assumption. Qed.
+
+Theorem instance_material_sync_meets_spec : forall is_bvi is_bind old inputs,
+  (forall x, In x inputs -> is_bvi x = true) ->
+  sync_spec is_bvi old inputs (instance_material_sync is_bvi is_bind old inputs).
+Proof. intros. unfold instance_material_sync. apply block_insert_spec. assumption. Qed.
+
 (* ---------------- whole trees ---------------- *)
 
 Section ObjInd.
@@ -387,3 +430,23 @@ Proof. vm_compute. split; reflexivity. Qed.
 Lemma original_sync_order_refuted :
   py_sync_original [1;2]%N [5;1;2]%N = [1;2;5]%N /\ py_sync [1;2]%N [5;1;2]%N = [5;1;2]%N.
 Proof. vm_compute. split; reflexivity. Qed.
+
+(* ---------------- a node's matrix follows its transform list ---------------- *)
+Section Matrix.
+  Variable M : Type.
+  Variable mul : M -> M -> M.
+  Variable one : M.
+  Variable mat : N -> M.          (* the matrix of the transform whose node has this identity *)
+  (* Node.save / Node.__init__: identity, then `matrix = dot(matrix, t.matrix)` for t in transforms *)
+  Definition node_matrix (ts : list N) : M := fold_left (fun acc t => mul acc (mat t)) ts one.
+
+  (* the saved element lists the transforms first, in list order: whoever reads the element's
+     transform children in document order computes the matrix of the CURRENT transform list *)
+  Theorem node_matrix_follows_transforms : forall old ts cs, NoDup old -> NoDup (ts ++ cs) ->
+    firstn (length ts) (node_sync old ts cs) = ts /\
+    node_matrix (firstn (length ts) (node_sync old ts cs)) = node_matrix ts.
+  Proof.
+    intros old ts cs Ho Hw. unfold node_sync. rewrite sync_exact by assumption.
+    rewrite firstn_app, firstn_all, Nat.sub_diag. simpl. rewrite app_nil_r. split; reflexivity.
+  Qed.
+End Matrix.
